@@ -10,8 +10,10 @@ import (
 	"verif/harness/ansichk"
 	"verif/harness/fieldchk"
 	"verif/harness/filterchk"
+	"verif/harness/histchk"
 	"verif/harness/readchk"
 	"verif/harness/vk"
+	"verif/harness/walkchk"
 )
 
 var checks = map[string]func(prop, tier string) int{
@@ -22,6 +24,8 @@ var checks = map[string]func(prop, tier string) int{
 	"C05": func(p, t string) int { return algochk.MainWith(p, t, filterchk.C05SubPhase) },
 	"C06": readchk.Main,
 	"C10": fieldchk.Main,
+	"C18": histchk.Main,
+	"C19": walkchk.Main,
 	"C11": ansichk.Main,
 }
 
